@@ -1,7 +1,11 @@
 (* Every change the block transaction of Model/DKGDriver.v makes to (db, sm) is a sequence of a
-   few primitive updates [prim].  Proved once here ([handle_*_evolves]); the invariants of C08
-   (sync position untouched, outbox discipline, cache coherence) are then checked per primitive
-   in Proofs/Outbox.v instead of per handler. *)
+   few primitive updates [prim], each carrying the facts under which the code performs it (a
+   commitment is queued only together with the transition of the eon's instance out of phase
+   Off and for the polynomial stored in that very step; an evaluation row / an apology value is
+   computed from the polynomial the instance holds; a result vote is queued together with the
+   result row; ...).  Proved once here ([handle_*_evolves]); the invariants of C08 (sync position
+   untouched, outbox discipline, cache coherence, message consistency) are then checked per
+   primitive in Proofs/Outbox*.v instead of per handler. *)
 From Coq Require Import List NArith ZArith Bool Lia.
 From Verif Require Import Lib.Bytes Model.DKGPure Model.DKGDriver Proofs.DKGChain.
 Import ListNotations.
@@ -25,16 +29,39 @@ Notation db := (db C E P).
 Notation st := (st C E P).
 Notation msg := (msg C E).
 
+(* messages without content that has to be consistent with the DKG state *)
+Definition plain (m : msg) : Prop :=
+  match m with
+  | MCheckIn | MVote _ _ | MBlockSeen _ | MAccusation _ _ => True
+  | _ => False
+  end.
+
 Inductive prim : st -> st -> Prop :=
-| pr_sched (d : db) (s : sm) desc (m : msg) : prim (d, s) (schedule C E P d desc m, s)
+| pr_sched_plain (d : db) (s : sm) desc (m : msg) : plain m -> prim (d, s) (schedule C E P d desc m, s)
+| pr_deal (d : db) (s : sm) eon a p' poly :
+    nget (sm_dkg s) eon = Some a -> p_phase (a_pure a) = Off -> p_phase p' = Dealing -> p_poly p' = Some poly ->
+    prim (d, s) (schedule C E P d None (MCommit eon (commit_of poly)), set_dkg C E P s eon (mark C E P a p'))
+| pr_sched_evals (d : db) (s : sm) eon rs vs :
+    length rs = length vs ->
+    (forall r v, In (r, v) (combine rs vs) -> In (eon, (r, v)) (db_evals _ _ _ d)) ->
+    prim (d, s) (schedule C E P d None (MEvals eon rs vs), s)
+| pr_sched_apology (d : db) (s : sm) eon a poly idxs accs :
+    nget (sm_dkg s) eon = Some a -> p_poly (a_pure a) = Some poly ->
+    idx_addrs (a_keypers a) idxs = Some accs ->
+    prim (d, s) (schedule C E P d None (MApology eon accs (map (eval_of poly) idxs)), s)
+| pr_result (d : db) (s : sm) l eon r :
+    l = db_results _ _ _ d -> nget l eon = None ->
+    prim (d, s) (upd_db_results C E P (schedule C E P d None (MResult eon (rs_success _ _ r))) (l ++ [(eon, r)]), s)
 | pr_filter (d : db) (s : sm) f :
     prim (d, s) (upd_db_outbox C E P d (filter f (db_outbox _ _ _ d)) (db_nextid _ _ _ d), s)
-| pr_evals (d : db) (s : sm) x : prim (d, s) (upd_db_evals C E P d x, s)
+| pr_eval_add (d : db) (s : sm) l eon a poly idx adr :
+    l = db_evals _ _ _ d ->
+    nget (sm_dkg s) eon = Some a -> p_poly (a_pure a) = Some poly -> nth_error (a_keypers a) idx = Some adr ->
+    prim (d, s) (upd_db_evals C E P d (l ++ [(eon, (adr, eval_of poly idx))]), s)
+| pr_evals_filter (d : db) (s : sm) l f :
+    l = db_evals _ _ _ d -> prim (d, s) (upd_db_evals C E P d (filter f l), s)
 | pr_keys (d : db) (s : sm) x : prim (d, s) (upd_db_keys C E P d x, s)
 | pr_eonkeys (d : db) (s : sm) x : prim (d, s) (upd_db_eonkeys C E P d x, s)
-| pr_result_add (d : db) (s : sm) l eon r :
-    l = db_results _ _ _ d -> nget l eon = None ->
-    prim (d, s) (upd_db_results C E P d (l ++ [(eon, r)]), s)
 | pr_cfg_add (d : db) (s : sm) l idx c :
     l = db_cfgs _ _ _ d -> nget l idx = None ->
     prim (d, s) (upd_db_cfgs C E P d (l ++ [(idx, c)]), s)
@@ -45,14 +72,17 @@ Inductive prim : st -> st -> Prop :=
 | pr_eon_add (d : db) (s : sm) l eon er :
     l = db_eons _ _ _ d -> nget l eon = None ->
     prim (d, s) (upd_db_eons C E P d (l ++ [(eon, er)]), s)
+| pr_eon_create (d : db) (s : sm) l eon er cr a :
+    l = db_eons _ _ _ d -> nget l eon = None ->
+    nget (db_cfgs _ _ _ d) (eo_cfg er) = Some cr ->
+    a_start a = eo_height er -> a_keypers a = cf_keypers cr -> a_dirty a = true ->
+    sm_iskeyper s = true -> p_poly (a_pure a) = None ->
+    prim (d, s) (upd_db_eons C E P d (l ++ [(eon, er)]), set_dkg C E P s eon a)
 | pr_iskeyper (d : db) (s : sm) : prim (d, s) (d, mkSm (sm_sync s) true (sm_dkg s))
 | pr_update (d : db) (s : sm) eon a p' :
-    nget (sm_dkg s) eon = Some a -> prim (d, s) (d, set_dkg C E P s eon (mark C E P a p'))
-| pr_create (d : db) (s : sm) eon er cr a :
-    nget (db_eons _ _ _ d) eon = Some er -> nget (db_cfgs _ _ _ d) (eo_cfg er) = Some cr ->
-    a_start a = eo_height er -> a_keypers a = cf_keypers cr -> a_dirty a = true ->
-    sm_iskeyper s = true ->
-    prim (d, s) (d, set_dkg C E P s eon a)
+    nget (sm_dkg s) eon = Some a -> p_poly p' = p_poly (a_pure a) ->
+    phase_leb (p_phase (a_pure a)) (p_phase p') = true ->
+    prim (d, s) (d, set_dkg C E P s eon (mark C E P a p'))
 | pr_finalize (d : db) (s : sm) eon :
     prim (d, s) (upd_db_pure C E P d (ndel (db_pure _ _ _ d) eon), del_dkg C E P s eon).
 
@@ -75,13 +105,74 @@ Notation shift_all := (shift_all C E P commit_of eval_of verify valid_eval L pol
 Notation handle_event := (handle_event C E P commit_of eval_of verify deg_ok valid_eval me L poly_for).
 Notation handle_events := (handle_events C E P commit_of eval_of verify deg_ok valid_eval me L poly_for).
 
-Lemma insert_evals_evolves (s : sm) eon keypers l : forall (d d' : db),
-  insert_evals C E P d eon keypers l = TOk d' -> evolves (d, s) (d', s).
+Lemma phase_leb_refl p : phase_leb p p = true.
+Proof. unfold phase_leb. apply Nat.leb_refl. Qed.
+
+(* ---- what the puredkg steps do to the polynomial and the phase ---- *)
+Lemma handle_eval_poly (d : pure) eon s r v d' :
+  handle_eval C E P valid_eval d eon s r v = HOk d' -> p_poly d' = p_poly d /\ p_phase d' = p_phase d.
 Proof.
-  induction l as [|[r v] rest IH]; simpl; intros d d' H.
+  unfold handle_eval. destruct (negb _); [discriminate|]. destruct (negb _); [discriminate|].
+  destruct (nth_error _ _) as [[?|]|]; try discriminate. destruct (negb _); [discriminate|].
+  destruct (set_nth _ _ _); [|discriminate]. intros [= <-]. split; reflexivity.
+Qed.
+
+Lemma handle_commit_poly (d : pure) eon s c d' :
+  handle_commit C E P deg_ok d eon s c = HOk d' -> p_poly d' = p_poly d /\ p_phase d' = p_phase d.
+Proof.
+  unfold handle_commit. destruct (negb _); [discriminate|].
+  destruct (nth_error _ _) as [[?|]|]; try discriminate. destruct (negb _); [discriminate|].
+  destruct (set_nth _ _ _); [|discriminate]. intros [= <-]. split; reflexivity.
+Qed.
+
+Lemma accuse_all_poly (d : pure) keypers eon si accused :
+  p_poly (accuse_all C E P d keypers eon si accused) = p_poly d /\
+  p_phase (accuse_all C E P d keypers eon si accused) = p_phase d.
+Proof.
+  revert d. induction accused as [|a r IH]; simpl; intros d; [split; reflexivity|].
+  destruct (find_index keypers a 0) as [ai|]; [|apply IH].
+  unfold handle_accusation. destruct (negb _); [apply IH|]. destruct (mem_pair _ _); [apply IH|].
+  destruct (IH (set_accs d (p_accs d ++ [(si, ai)]))) as [A B]. split; [rewrite A|rewrite B]; reflexivity.
+Qed.
+
+Lemma apologise_all_poly (d : pure) keypers eon si accusers vals d' :
+  apologise_all C E P valid_eval d keypers eon si accusers vals = Some d' ->
+  p_poly d' = p_poly d /\ p_phase d' = p_phase d.
+Proof.
+  revert d vals. induction accusers as [|a r IH]; simpl; intros d vals H.
+  - injection H as <-. split; reflexivity.
+  - destruct vals as [|v vr].
+    + destruct (find_index keypers a 0); [discriminate|]. eapply IH. exact H.
+    + destruct (find_index keypers a 0) as [ai|]; [|eapply IH; exact H].
+      unfold handle_apology in H. destruct (negb _); [eapply IH; exact H|].
+      destruct (apo_mem _ _); [eapply IH; exact H|]. destruct (negb _); [eapply IH; exact H|].
+      apply IH in H. simpl in H. exact H.
+Qed.
+
+Lemma start_phase1_poly (d : pure) poly d' c evs :
+  start_phase1 C E P commit_of eval_of valid_eval d poly = Some (d', c, evs) ->
+  p_poly d' = Some poly /\ c = commit_of poly /\
+  evs = map (fun r => (r, eval_of poly r)) (filter (fun r => negb (Nat.eqb r (p_me d))) (seq 0 (p_n d))).
+Proof.
+  unfold start_phase1. destruct (advance d Off) as [q|]; [|discriminate].
+  destruct (Nat.ltb _ _).
+  - destruct (handle_eval _ _ _ _ _ _ _ _ _) as [d3| |] eqn:He; try discriminate.
+    intros [= <- <- <-]. apply handle_eval_poly in He. destruct He as [Hp _]. simpl in Hp.
+    repeat split. exact Hp.
+  - intros [= <- <- <-]. repeat split.
+Qed.
+
+Lemma insert_evals_evolves (s : sm) eon a poly keypers l :
+  nget (sm_dkg s) eon = Some a -> p_poly (a_pure a) = Some poly -> a_keypers a = keypers ->
+  (forall r v, In (r, v) l -> v = eval_of poly r) ->
+  forall (d d' : db), insert_evals C E P d eon keypers l = TOk d' -> evolves (d, s) (d', s).
+Proof.
+  intros Hg Hp Hk. induction l as [|[r v] rest IH]; simpl; intros Hl d d' H.
   - injection H as <-. apply ev_refl.
-  - destruct (nth_error keypers r); [|discriminate]. destruct (existsb _ _); [discriminate|].
-    eapply ev_step; [apply pr_evals|]. apply IH. exact H.
+  - destruct (nth_error keypers r) as [adr|] eqn:Hn; [|discriminate]. destruct (existsb _ _); [discriminate|].
+    rewrite (Hl r v (or_introl eq_refl)) in H.
+    eapply ev_step; [eapply (pr_eval_add d s _ eon a poly r adr); [reflexivity|exact Hg|exact Hp|rewrite Hk; exact Hn]|].
+    apply IH; [|exact H]. intros r0 v0 Hin. apply Hl. right. exact Hin.
 Qed.
 
 (* the stored entry of the eon is the one the loop holds *)
@@ -90,12 +181,14 @@ Lemma start1_evolves x eon a x1 a1 :
   evolves x x1 /\ nget (sm_dkg (snd x1)) eon = Some a1.
 Proof.
   destruct x as [d s]. simpl. intros Hg. unfold DKGDriver.start1.
-  destruct (start_phase1 _ _ _ _ _ _ _ _) as [[[p' c] evals]|]; [|discriminate].
+  destruct (start_phase1 _ _ _ _ _ _ _ _) as [[[p' c] evals]|] eqn:Hs; [|discriminate].
   destruct (insert_evals _ _ _ _ _ _ _) as [d2| |] eqn:Hi; simpl; try discriminate.
   intros [= <- <-]. split; [|simpl; apply nget_nins_same].
-  eapply ev_step; [apply pr_sched|].
-  eapply ev_trans; [eapply insert_evals_evolves; exact Hi|].
-  apply ev_one. apply pr_update. exact Hg.
+  destruct (start_phase1_poly _ _ _ _ _ Hs) as [Hp [-> Hev]].
+  destruct (start_phase1_spec C E P commit_of eval_of valid_eval _ _ _ _ _ Hs) as [_ [Hoff Hdeal]].
+  eapply ev_step; [apply (pr_deal d s eon a p' (poly_for eon) Hg Hoff Hdeal Hp)|].
+  eapply (insert_evals_evolves _ eon (mark C E P a p') (poly_for eon)); [simpl; apply nget_nins_same|exact Hp|reflexivity| |exact Hi].
+  intros r v Hin. rewrite Hev in Hin. apply in_map_iff in Hin. destruct Hin as [r0 [Heq _]]. injection Heq as <- <-. reflexivity.
 Qed.
 
 Lemma start2_evolves x eon a x1 a1 :
@@ -103,11 +196,20 @@ Lemma start2_evolves x eon a x1 a1 :
   evolves x x1 /\ nget (sm_dkg (snd x1)) eon = Some a1.
 Proof.
   destruct x as [d s]. simpl. intros Hg. unfold DKGDriver.start2.
-  destruct (start_phase2 _ _ _ _ _) as [[p' accs]|]; [|discriminate].
+  destruct (start_phase2 _ _ _ _ _) as [[p' accs]|] eqn:Hs; [|discriminate].
+  assert (Hup : prim (d, s) (d, set_dkg C E P s eon (mark C E P a p'))).
+  { apply pr_update; [exact Hg| |].
+    - unfold start_phase2 in Hs. destruct (advance (a_pure a) Dealing) as [q|] eqn:Ha; [|discriminate].
+      apply advance_same in Ha. destruct Ha as [-> _]. injection Hs as <- _. reflexivity.
+    - destruct (start_phase2_spec C E P verify _ _ _ Hs) as [_ [H1 H2]]. rewrite H1, H2. reflexivity. }
   destruct accs as [|ac accs].
-  - intros [= <- <-]. split; [|simpl; apply nget_nins_same]. apply ev_one. apply pr_update. exact Hg.
+  - intros [= <- <-]. split; [|simpl; apply nget_nins_same]. apply ev_one. exact Hup.
   - destruct (idx_addrs _ _); [|discriminate]. intros [= <- <-]. split; [|simpl; apply nget_nins_same].
-    eapply ev_step; [apply pr_sched|]. apply ev_one. apply pr_update. exact Hg.
+    eapply ev_step; [apply (pr_sched_plain d s None (MAccusation eon l)); exact I|]. apply ev_one.
+    apply pr_update; [exact Hg| |].
+    + unfold start_phase2 in Hs. destruct (advance (a_pure a) Dealing) as [q|] eqn:Ha; [|discriminate].
+      apply advance_same in Ha. destruct Ha as [-> _]. injection Hs as <- _. reflexivity.
+    + destruct (start_phase2_spec C E P verify _ _ _ Hs) as [_ [H1 H2]]. rewrite H1, H2. reflexivity.
 Qed.
 
 Lemma start3_evolves x eon a x1 a1 :
@@ -115,11 +217,30 @@ Lemma start3_evolves x eon a x1 a1 :
   evolves x x1 /\ nget (sm_dkg (snd x1)) eon = Some a1.
 Proof.
   destruct x as [d s]. simpl. intros Hg. unfold DKGDriver.start3.
-  destruct (start_phase3 _ _ _ _ _) as [[p' apos]|]; [|discriminate].
+  destruct (start_phase3 _ _ _ _ _) as [[p' apos]|] eqn:Hs; [|discriminate].
+  assert (Hpp : p_poly p' = p_poly (a_pure a) /\ phase_leb (p_phase (a_pure a)) (p_phase p') = true).
+  { destruct (start_phase3_spec C E P eval_of _ _ _ Hs) as [_ [H1 H2]]. rewrite H1, H2. split; [|reflexivity].
+    assert (Hp' : p' = set_phase (a_pure a) Apologizing).
+    { unfold start_phase3 in Hs. destruct (advance (a_pure a) Accusing) as [q|] eqn:Ha; [|discriminate].
+      apply advance_same in Ha. destruct Ha as [-> _].
+      destruct (filter _ _); [|destruct (p_poly (a_pure a)) eqn:Q; [|discriminate]]; injection Hs as <- _; reflexivity. }
+    rewrite Hp'. reflexivity. }
+  destruct Hpp as [Hpoly Hph].
   destruct apos as [|ap apos].
-  - intros [= <- <-]. split; [|simpl; apply nget_nins_same]. apply ev_one. apply pr_update. exact Hg.
-  - destruct (idx_addrs _ _); [|discriminate]. intros [= <- <-]. split; [|simpl; apply nget_nins_same].
-    eapply ev_step; [apply pr_sched|]. apply ev_one. apply pr_update. exact Hg.
+  - intros [= <- <-]. split; [|simpl; apply nget_nins_same]. apply ev_one. apply pr_update; assumption.
+  - destruct (idx_addrs (a_keypers a) (map fst (ap :: apos))) as [accs|] eqn:Hi; [|discriminate].
+    intros [= <- <-]. split; [|simpl; apply nget_nins_same].
+    (* the values are evaluations of the stored polynomial *)
+    assert (Hv : exists poly, p_poly (a_pure a) = Some poly /\
+                 map snd (ap :: apos) = map (eval_of poly) (map fst (ap :: apos))).
+    { unfold start_phase3 in Hs. destruct (advance (a_pure a) Accusing) as [q|]; [|discriminate].
+      destruct (filter _ _) as [|k ks]; [discriminate|].
+      destruct (p_poly (a_pure a)) as [poly|] eqn:Q; [|discriminate]. injection Hs as _ <- <-.
+      exists poly. split; [reflexivity|]. simpl. f_equal. rewrite !map_map. reflexivity. }
+    destruct Hv as [poly [Hp Hvals]].
+    eapply ev_step; [|apply ev_one; apply pr_update; assumption].
+    pose proof (pr_sched_apology d s eon a poly (map fst (ap :: apos)) accs Hg Hp Hi) as Hpr.
+    rewrite <- Hvals in Hpr. exact Hpr.
 Qed.
 
 Lemma finalize_evolves x eon a x1 a1 :
@@ -129,19 +250,18 @@ Proof.
   destruct (finalize (a_pure a)) as [p'|] eqn:Hf; [|discriminate].
   apply finalize_spec in Hf. destruct Hf as [-> _].
   set (res := compute_result C E P verify (set_phase (a_pure a) Finalized)).
-  destruct (is_result C E res).
+  destruct (is_result C E res) eqn:Hok.
   - destruct (existsb _ _); simpl; [discriminate|].
     destruct (nget (db_results C E P d) eon) eqn:Hr; simpl; [discriminate|].
     intros [= <- <-]. split; [|reflexivity].
-    eapply ev_step; [apply pr_finalize|]. eapply ev_step; [apply pr_evals|].
-    eapply ev_step; [apply pr_eonkeys|]. eapply ev_step; [apply pr_sched|].
-    apply ev_one. eapply pr_result_add; [reflexivity|exact Hr].
+    eapply ev_step; [apply pr_finalize|]. eapply ev_step; [eapply pr_evals_filter; reflexivity|].
+    eapply ev_step; [apply pr_eonkeys|].
+    apply ev_one. eapply (pr_result _ _ _ eon (mkRes C E true res)); [reflexivity|exact Hr].
   - destruct (nget (db_eons C E P _) eon); simpl; [|discriminate].
     destruct (nget (db_results C E P d) eon) eqn:Hr; simpl; [discriminate|].
     intros [= <- <-]. split; [|reflexivity].
-    eapply ev_step; [apply pr_finalize|]. eapply ev_step; [apply pr_evals|].
-    eapply ev_step; [apply pr_sched|].
-    apply ev_one. eapply pr_result_add; [reflexivity|exact Hr].
+    eapply ev_step; [apply pr_finalize|]. eapply ev_step; [eapply pr_evals_filter; reflexivity|].
+    apply ev_one. eapply (pr_result _ _ _ eon (mkRes C E false res)); [reflexivity|exact Hr].
 Qed.
 
 Lemma shift_loop_evolves fuel : forall x h eon a x',
@@ -187,7 +307,7 @@ Proof.
     unfold handle_batch_config. destruct (is_member keypers me) eqn:Hm.
     + destruct (nget (db_cfgs C E P (schedule C E P d None MCheckIn)) idx) eqn:Hn; [discriminate|].
       intros [= <-].
-      eapply ev_step; [apply pr_iskeyper|]. eapply ev_step; [apply (pr_sched d _ None MCheckIn)|].
+      eapply ev_step; [apply pr_iskeyper|]. eapply ev_step; [apply (pr_sched_plain d _ None MCheckIn); exact I|].
       eapply ev_step; [eapply pr_cfg_add; [reflexivity|exact Hn]|]. apply ev_one. apply pr_filter.
     + destruct (nget (db_cfgs C E P d) idx) eqn:Hn; [discriminate|]. intros [= <-].
       eapply ev_step; [eapply pr_cfg_add; [reflexivity|exact Hn]|]. apply ev_one. apply pr_filter.
@@ -204,18 +324,19 @@ Proof.
     destruct (find_index (cf_keypers c) me 0) as [ki|]; [|intros [= <-]; exact H1].
     destruct (phase_eqb _ Off); [discriminate|].
     set (a := mkActive (new_pure eon (length (cf_keypers c)) (cf_threshold c) ki) h true (cf_keypers c)).
-    intros Hrun. eapply ev_trans; [exact H1|].
+    intros Hrun.
     eapply ev_step.
-    + apply (pr_create d1 s eon (mkEon h act idx) c a); try reflexivity.
-      * unfold d1. simpl. rewrite (nget_app_none _ _ _ _ Hn), N.eqb_refl. reflexivity.
-      * simpl. exact Hc.
+    + eapply (pr_eon_create d s _ eon (mkEon h act idx) c a); try reflexivity.
+      * exact Hn.
+      * exact Hc.
       * apply negb_false_iff in Hk. exact Hk.
     + eapply shift_loop_evolves; [|exact Hrun]. simpl. apply nget_nins_same.
   - (* commitment *)
     destruct (nget (sm_dkg s) eon) as [a|] eqn:Hg; [|intros [= <-]; apply ev_refl].
     destruct (find_index _ _ _); [|intros [= <-]; apply ev_refl].
-    destruct (handle_commit _ _ _ _ _ _ _ _); intros [= <-]; try apply ev_refl.
-    apply ev_one. apply pr_update. exact Hg.
+    destruct (handle_commit _ _ _ _ _ _ _ _) as [p'| |] eqn:Hh; intros [= <-]; try apply ev_refl.
+    apply handle_commit_poly in Hh. destruct Hh as [A B].
+    apply ev_one. apply pr_update; [exact Hg|exact A|rewrite B; apply phase_leb_refl].
   - (* evaluation *)
     destruct (bytes_eqb sender me); [intros [= <-]; apply ev_refl|].
     destruct (nget (sm_dkg s) eon) as [a|] eqn:Hg; [|intros [= <-]; apply ev_refl].
@@ -223,19 +344,22 @@ Proof.
     destruct (find_index (a_keypers a) me 0); [|discriminate].
     destruct (find_index receivers me 0); [|intros [= <-]; apply ev_refl].
     destruct (nth_error vals _) as [[v|]|]; try discriminate; [|intros [= <-]; apply ev_refl].
-    destruct (handle_eval _ _ _ _ _ _ _ _ _); intros [= <-]; try apply ev_refl.
-    apply ev_one. apply pr_update. exact Hg.
+    destruct (handle_eval _ _ _ _ _ _ _ _ _) as [p'| |] eqn:Hh; intros [= <-]; try apply ev_refl.
+    apply handle_eval_poly in Hh. destruct Hh as [A B].
+    apply ev_one. apply pr_update; [exact Hg|exact A|rewrite B; apply phase_leb_refl].
   - (* accusation *)
     destruct (nget (sm_dkg s) eon) as [a|] eqn:Hg; [|intros [= <-]; apply ev_refl].
     destruct (negb _); [intros [= <-]; apply ev_refl|].
-    destruct (find_index _ _ _); intros [= <-]; [|apply ev_refl].
-    apply ev_one. apply pr_update. exact Hg.
+    destruct (find_index _ _ _) as [si|]; intros [= <-]; [|apply ev_refl].
+    destruct (accuse_all_poly (a_pure a) (a_keypers a) eon si accused) as [A B].
+    apply ev_one. apply pr_update; [exact Hg|exact A|rewrite B; apply phase_leb_refl].
   - (* apology *)
     destruct (nget (sm_dkg s) eon) as [a|] eqn:Hg; [|intros [= <-]; apply ev_refl].
     destruct (negb _); [intros [= <-]; apply ev_refl|].
     destruct (find_index _ _ _); [|intros [= <-]; apply ev_refl].
-    destruct (apologise_all _ _ _ _ _ _ _ _ _ _); [|discriminate]. intros [= <-].
-    apply ev_one. apply pr_update. exact Hg.
+    destruct (apologise_all _ _ _ _ _ _ _ _ _ _) as [p'|] eqn:Hh; [|discriminate]. intros [= <-].
+    apply apologise_all_poly in Hh. destruct Hh as [A B].
+    apply ev_one. apply pr_update; [exact Hg|exact A|rewrite B; apply phase_leb_refl].
 Qed.
 
 Lemma handle_events_evolves es : forall x h x', handle_events x h es = TOk x' -> evolves x x'.
@@ -246,20 +370,41 @@ Proof.
     eapply ev_trans; [eapply handle_event_evolves; exact H1|]. eapply IH. exact Hrun.
 Qed.
 
-Lemma fold_evolves {A} (g : db -> A -> db) (s : sm) l :
-  (forall acc x, evolves (acc, s) (g acc x, s)) -> forall d, evolves (d, s) (fold_left g l d, s).
-Proof.
-  intros Hg. induction l as [|x r IH]; simpl; intros d; [apply ev_refl|].
-  eapply ev_trans; [apply Hg|]. apply IH.
-Qed.
-
+(* sendPolyEvals: one message per eon from rows of the table, then the rows go *)
 Lemma send_poly_evals_evolves (d : db) (s : sm) : evolves (d, s) (send_poly_evals C E P d, s).
 Proof.
   unfold send_poly_evals. cbv zeta.
-  match goal with |- evolves _ (upd_db_evals _ _ _ (fold_left ?g ?l ?d0) _, _) =>
-    apply (ev_trans _ (fold_left g l d0, s));
-      [apply fold_evolves; intros acc x; apply ev_one; apply pr_sched|apply ev_one; apply pr_evals]
-  end.
+  set (ready := filter (fun row => has_key C E P d (fst (snd row))) (db_evals C E P d)).
+  assert (Hfold : forall (eons : list N) (acc : db), db_evals C E P acc = db_evals C E P d ->
+            evolves (acc, s)
+              (fold_left (fun acc0 eon =>
+                            schedule C E P acc0 None
+                              (MEvals eon (map (fun row => fst (snd row)) (filter (fun row => N.eqb (fst row) eon) ready))
+                                          (map (fun row => snd (snd row)) (filter (fun row => N.eqb (fst row) eon) ready))))
+                         eons acc, s) /\
+            db_evals C E P (fold_left (fun acc0 eon =>
+                            schedule C E P acc0 None
+                              (MEvals eon (map (fun row => fst (snd row)) (filter (fun row => N.eqb (fst row) eon) ready))
+                                          (map (fun row => snd (snd row)) (filter (fun row => N.eqb (fst row) eon) ready))))
+                         eons acc) = db_evals C E P d).
+  { induction eons as [|eon r IH]; simpl; intros acc Hacc; [split; [apply ev_refl|exact Hacc]|].
+    destruct (IH (schedule C E P acc None
+               (MEvals eon (map (fun row => fst (snd row)) (filter (fun row => N.eqb (fst row) eon) ready))
+                           (map (fun row => snd (snd row)) (filter (fun row => N.eqb (fst row) eon) ready))))) as [He Hd].
+    - simpl. exact Hacc.
+    - split; [|exact Hd]. eapply ev_step; [|exact He].
+      apply pr_sched_evals.
+      + rewrite !map_length. reflexivity.
+      + intros r0 v0 Hin. rewrite Hacc.
+        assert (Hrow : exists row, In row (filter (fun row => N.eqb (fst row) eon) ready) /\ fst (snd row) = r0 /\ snd (snd row) = v0).
+        { clear - Hin. induction (filter (fun row => N.eqb (fst row) eon) ready) as [|x l IHl]; simpl in Hin; [contradiction|].
+          destruct Hin as [Heq|Hin]; [injection Heq as <- <-; exists x; repeat split; left; reflexivity|].
+          destruct (IHl Hin) as [row [A B]]. exists row. split; [right; exact A|exact B]. }
+        destruct Hrow as [[e0 [a0 w0]] [Hf [<- <-]]]. apply filter_In in Hf. destruct Hf as [Hr He0].
+        simpl in He0. apply N.eqb_eq in He0. subst e0. unfold ready in Hr. apply filter_In in Hr. destruct Hr as [Hr _]. exact Hr. }
+  destruct (Hfold (fold_right insert_sorted [] (map fst ready)) d eq_refl) as [He Hd].
+  eapply ev_trans; [exact He|]. apply ev_one.
+  eapply pr_evals_filter. reflexivity.
 Qed.
 
 End Evolve.
